@@ -171,7 +171,7 @@ theorem Inv.auth_notls (h : Inv jid U NR p c) (hc : HC p c) (ha : c.g.authOk = f
   rw [Conn.auth]; dsimp only
   rw [h.ts]; simp only [Bool.false_eq_true, if_false]
   split
-  · exact h.connDisconnect
+  · exact h.connDisconnect (fun k a nk e => absurd (hc.nil k a nk) e)
   split
   · rename_i _ hh; simp only [Bool.and_eq_true, decide_eq_true_eq] at hh
     exact h.authMech hc ha (.saslResult (b "ANONYMOUS")) (fun _ _ _ _ _ a => a) 1 _ _ _ _ (by rw [mb_anon]; exact hb _ hh.2)
